@@ -73,7 +73,19 @@ func (c *quietConn) deliver(ch chan *nats.Msg, m *nats.Msg) {
 }
 
 // perturb is installed as the hook: no shared memory, no locks, no atomics.
+var dbgSubj sync.Map
+
 func perturb(point string, args ...interface{}) {
+	if (point == "rw.enq" || point == "rw.refused" || point == "pq.take") && os.Getenv("VERIF_RACER_DEBUG") != "" && (point == "pq.take" || strings.HasPrefix(fmt.Sprint(args[0]), "test.bsq")) {
+		fmt.Println("RACER-DEBUG", point, args[0])
+	}
+	if (point == "ql.recv" || point == "qr.done" || point == "ql.exit") && os.Getenv("VERIF_RACER_DEBUG") != "" {
+		fmt.Println("RACER-DEBUG", point, args[0])
+	}
+	if point == "qe.added" && os.Getenv("VERIF_RACER_DEBUG") != "" {
+		fmt.Println("RACER-DEBUG qe.added", args[0], time.Now().UnixNano()/1000%100000000)
+		dbgSubj.Store(args[1], args[0])
+	}
 	switch point {
 	case "rw.enq", "wk.locked", "wk.park", "wk.wake", "wk.pop", "wk.exit", "pq.take", "pq.relock", "pq.retire", "cl.nil":
 		return
@@ -149,8 +161,13 @@ func oneRound(seed int64, db *badger.DB, round int) {
 	ms.Add("test.ms.1", map[string]interface{}{"n": 1})
 	bs := badgerstore.NewStore(db).SetType(item{}).SetPrefix(fmt.Sprintf("r%d", round))
 	qs := badgerstore.NewQueryStore(bs, func(qs *badgerstore.QueryStore, q url.Values) (*badgerstore.IndexQuery, error) {
+		if q.Get("by") == "parity" {
+			return &badgerstore.IndexQuery{Index: qs.Index("parity"), KeyPrefix: []byte(q.Get("p")), Limit: -1}, nil
+		}
 		return &badgerstore.IndexQuery{Index: qs.Index("name"), KeyPrefix: []byte(q.Get("p")), Limit: -1}, nil
-	}).AddIndex(badgerstore.Index{Name: "name", Key: func(v interface{}) []byte { return []byte(v.(item).Name) }})
+	}).AddIndex(badgerstore.Index{Name: "name", Key: func(v interface{}) []byte { return []byte(v.(item).Name) }}).
+		// a second index whose key most writes leave unchanged
+		AddIndex(badgerstore.Index{Name: "parity", Key: func(v interface{}) []byte { return []byte(fmt.Sprint(len(v.(item).ID) % 2)) }})
 	s.Handle("r.$id",
 		res.Access(func(r res.AccessRequest) { touch(r.Group()); r.AccessGranted() }),
 		res.GetModel(func(r res.ModelRequest) { touch(r.Group()); r.Model(map[string]int{"x": 1}) }),
@@ -190,7 +207,20 @@ func oneRound(seed int64, db *badger.DB, round int) {
 	s.Handle("bs.$id", res.Model, store.Handler{Store: bs, Transformer: store.IDTransformer("id", nil)})
 	s.Handle("bsq", res.Collection, store.QueryHandler{QueryStore: qs, Transformer: store.IDToRIDCollectionTransformer(func(id string) string { return "test.bs." + id }),
 		QueryRequestHandler: func(rname string, pp map[string]string, q url.Values) (url.Values, string, error) {
+			if os.Getenv("VERIF_RACER_DEBUG") != "" {
+				fmt.Println("RACER-DEBUG qrh1", time.Now().UnixNano()/1000%100000000)
+			}
+			time.Sleep(40 * time.Microsecond)
 			return url.Values{"p": {q.Get("p")}}, "p=" + q.Get("p"), nil
+		}})
+	// a second query resource on the same query store, in another worker group
+	s.Handle("bsq2", res.Collection, store.QueryHandler{QueryStore: qs, Transformer: store.IDToRIDCollectionTransformer(func(id string) string { return "test.bs." + id }),
+		QueryRequestHandler: func(rname string, pp map[string]string, q url.Values) (url.Values, string, error) {
+			if os.Getenv("VERIF_RACER_DEBUG") != "" {
+				fmt.Println("RACER-DEBUG qrh2", time.Now().UnixNano()/1000%100000000)
+			}
+			time.Sleep(40 * time.Microsecond) // a handler that takes a moment: callbacks of different groups overlap
+			return url.Values{"p": {q.Get("p")}, "by": {"parity"}}, "by=parity&p=" + q.Get("p"), nil
 		}})
 	conn := &quietConn{}
 	served := make(chan struct{})
@@ -246,36 +276,44 @@ func oneRound(seed int64, db *badger.DB, round int) {
 			conn.deliver(inCh, &nats.Msg{Subject: subj, Reply: "inbox.x", Data: []byte(`{"cid":"c1"}`)})
 		}
 	})
-	// query requests on the subjects of the live query events (the gateway's side of a query event)
-	goer(func(r *rand.Rand) {
-		for i := 0; i < 200; i++ {
-			select {
-			case <-stop:
-				return
-			default:
-			}
-			conn.mu.Lock()
-			var qsubs []qsub
-			for _, sb := range conn.subs {
-				if strings.HasPrefix(sb.subject, "_INBOX.") {
-					qsubs = append(qsubs, sb)
+	// query requests on the subjects of the live query events (the gateway's side of a query event): two
+	// clients, one for the even and one for the odd subscriptions, so that the query events that one store
+	// change fans out to (adjacent subscriptions, different worker groups) are queried at the same time
+	for g := 0; g < 2; g++ {
+		g := g
+		goer(func(r *rand.Rand) {
+			sent := map[int]int{}
+			for i := 0; i < 20000; i++ {
+				select {
+				case <-stop:
+					return
+				default:
+				}
+				conn.mu.Lock()
+				var qsubs []qsub
+				for _, sb := range conn.subs {
+					if strings.HasPrefix(sb.subject, "_INBOX.") {
+						qsubs = append(qsubs, sb)
+					}
+				}
+				conn.mu.Unlock()
+				did := false
+				for idx := len(qsubs) - 1; idx >= 0 && idx >= len(qsubs)-12; idx-- {
+					if idx%2 != g || sent[idx] >= 6 {
+						continue
+					}
+					sb := qsubs[idx]
+					k := sent[idx]
+					sent[idx]++
+					did = true
+					conn.deliver(sb.ch, &nats.Msg{Subject: sb.subject, Reply: "inbox.q", Data: []byte(fmt.Sprintf(`{"query":"q=%d&p=%d&by=%s"}`, idx*8+k, k%2, []string{"parity", "name"}[k%2]))})
+				}
+				if !did {
+					time.Sleep(20 * time.Microsecond)
 				}
 			}
-			conn.mu.Unlock()
-			if len(qsubs) == 0 {
-				time.Sleep(50 * time.Microsecond)
-				continue
-			}
-			// the most recent query events are the ones still listening
-			for back := 0; back < min(4, len(qsubs)); back++ {
-				sb := qsubs[len(qsubs)-1-back]
-				for k := 0; k < 4; k++ {
-					conn.deliver(sb.ch, &nats.Msg{Subject: sb.subject, Reply: "inbox.q", Data: []byte(fmt.Sprintf(`{"query":"q=%d"}`, i*4+k))})
-				}
-			}
-			time.Sleep(30 * time.Microsecond)
-		}
-	})
+		})
+	}
 	// query events on parallel resources, started all through the round
 	goer(func(r *rand.Rand) {
 		for i := 0; i < 25; i++ {
@@ -292,20 +330,28 @@ func oneRound(seed int64, db *badger.DB, round int) {
 	for k := 0; k < 3; k++ {
 		goer(func(r *rand.Rand) {
 			for i := 0; i < 80; i++ {
+				if round%2 == 0 {
+					// long rounds: a paced load, so that the work queue stays short and every kind of callback gets to run
+					select {
+					case <-stop:
+						return
+					case <-time.After(time.Duration(50+r.Intn(250)) * time.Microsecond):
+					}
+				}
 				n := names[r.Intn(5)]
-				switch r.Intn(4) {
+				switch r.Intn(8) {
 				case 3:
 					// a callback that stays inside its group for a while (Shutdown and query expiry overlap it)
-					pause := time.Duration(500+r.Intn(2500)) * time.Microsecond
+					pause := time.Duration(300+r.Intn(1500)) * time.Microsecond
 					s.With(n, func(rs res.Resource) {
 						g := rs.Group()
 						touch(g)
 						time.Sleep(pause)
 						touch(g)
 					})
-				case 0:
+				case 0, 4, 5:
 					s.With(n, func(rs res.Resource) { touch(rs.Group()) })
-				case 1:
+				case 1, 6:
 					if rs, err := s.Resource(n); err == nil {
 						g := rs.Group()
 						s.WithResource(rs, func() { touch(g) })
@@ -338,7 +384,16 @@ func oneRound(seed int64, db *badger.DB, round int) {
 	for k := 0; k < 2; k++ {
 		k := k
 		goer(func(r *rand.Rand) {
-			for i := 0; i < 40; i++ {
+			for i := 0; i < 400; i++ {
+				select {
+				case <-stop:
+					return
+				default:
+				}
+				if i >= 40 {
+					// after the opening burst: paced, so that index maintenance and query events happen all through the life
+					time.Sleep(time.Duration(100+r.Intn(300)) * time.Microsecond)
+				}
 				id := fmt.Sprint(1 + r.Intn(3))
 				switch r.Intn(4) {
 				case 0:
@@ -370,7 +425,21 @@ func oneRound(seed int64, db *badger.DB, round int) {
 		})
 	}
 	// Shutdown at a random moment
-	time.Sleep(time.Duration(rng.Intn(3000)) * time.Microsecond)
+	if round%2 == 0 {
+		// a longer life: the slower goroutines (store transactions, query traffic) get their turn
+		time.Sleep(time.Duration(8000+rng.Intn(15000)) * time.Microsecond)
+	} else {
+		time.Sleep(time.Duration(rng.Intn(3000)) * time.Microsecond)
+	}
+	if os.Getenv("VERIF_RACER_DEBUG") != "" && round%3 == 0 {
+		buf := make([]byte, 1<<20)
+		buf = buf[:runtime.Stack(buf, true)]
+		for _, blk := range strings.Split(string(buf), "\n\n") {
+			if strings.Contains(blk, "queryHandler") || strings.Contains(blk, "handleQueryRequest") {
+				fmt.Println("RACER-STACK", strings.ReplaceAll(blk, "\n", " | ")[:min(1500, len(blk))])
+			}
+		}
+	}
 	s.Shutdown()
 	close(stop)
 	select {
